@@ -19,6 +19,7 @@ static const char* opName(int c) { return (c > 0 && c < O_N) ? codeName[c] : "?"
 static const int NE = 3, NL = 4, NS = 10;   /* signals: 0 sigA(int), 1 sigB(), 2 sigC(int), 3..9 = two..eight int arguments (every hand-written emit/connect/disconnect overload) */
 struct MyEmitter; struct MyListener;
 static void harnessSlot(int lid, int slot, int arg);
+static void slotEntered(const struct MyListener* self, int slot, int arg);
 static volatile int sink;
 struct MyEmitter : public Callback::Emitter {
   int id;
@@ -44,23 +45,28 @@ struct MyEmitter : public Callback::Emitter {
 };
 struct MyListener : public Callback::Listener {
   int id;
-  void sa0(int v) { harnessSlot(id, 0, v); }
-  void sa1(int v) { harnessSlot(id, 1, v); }
-  void sb0() { harnessSlot(id, 2, 0); }
+  void sa0(int v) { slotEntered(this, 0, v); }
+  void sa1(int v) { slotEntered(this, 1, v); }
+  void sb0() { slotEntered(this, 2, 0); }
   static void argsOk(bool ok) { if (!ok) fail("C12/wrong_arguments", "a slot received other arguments than were emitted"); }
-  void s2(int a, int b) { argsOk(b == 2); harnessSlot(id, 3, a); }
-  void s3(int a, int b, int c) { argsOk(b == 2 && c == 3); harnessSlot(id, 4, a); }
-  void s4(int a, int b, int c, int d) { argsOk(b == 2 && c == 3 && d == 4); harnessSlot(id, 5, a); }
-  void s5(int a, int b, int c, int d, int e) { argsOk(b == 2 && c == 3 && d == 4 && e == 5); harnessSlot(id, 6, a); }
-  void s6(int a, int b, int c, int d, int e, int f) { argsOk(b == 2 && c == 3 && d == 4 && e == 5 && f == 6); harnessSlot(id, 7, a); }
-  void s7(int a, int b, int c, int d, int e, int f, int g) { argsOk(b == 2 && c == 3 && d == 4 && e == 5 && f == 6 && g == 7); harnessSlot(id, 8, a); }
-  void s8(int a, int b, int c, int d, int e, int f, int g, int h) { argsOk(b == 2 && c == 3 && d == 4 && e == 5 && f == 6 && g == 7 && h == 8); harnessSlot(id, 9, a); }
+  void s2(int a, int b) { argsOk(b == 2); slotEntered(this, 3, a); }
+  void s3(int a, int b, int c) { argsOk(b == 2 && c == 3); slotEntered(this, 4, a); }
+  void s4(int a, int b, int c, int d) { argsOk(b == 2 && c == 3 && d == 4); slotEntered(this, 5, a); }
+  void s5(int a, int b, int c, int d, int e) { argsOk(b == 2 && c == 3 && d == 4 && e == 5); slotEntered(this, 6, a); }
+  void s6(int a, int b, int c, int d, int e, int f) { argsOk(b == 2 && c == 3 && d == 4 && e == 5 && f == 6); slotEntered(this, 7, a); }
+  void s7(int a, int b, int c, int d, int e, int f, int g) { argsOk(b == 2 && c == 3 && d == 4 && e == 5 && f == 6 && g == 7); slotEntered(this, 8, a); }
+  void s8(int a, int b, int c, int d, int e, int f, int g, int h) { argsOk(b == 2 && c == 3 && d == 4 && e == 5 && f == 6 && g == 7 && h == 8); slotEntered(this, 9, a); }
 };
 
+/* Emitters and listeners are used through a derived type whose Emitter/Listener part does not sit at offset 0 (a second base comes first),
+   as in applications that mix the callback classes into their own hierarchies: connect/disconnect must adjust the object pointers. */
+struct PadBase { long pad[3]; PadBase() { pad[0] = pad[1] = pad[2] = 0x5a5a5a5a; } };
+struct MyEmitterMI : PadBase, MyEmitter {};
+struct MyListenerMI : PadBase, MyListener {};
 struct Conn { int e, sig, l, slot; uint64_t seq; bool live; };           // sig 0 = sigA(int), 1 = sigB(), 2 = sigC(int); slots 0,1 take int (sigA, sigC: one slot may serve both), slot 2 takes nothing (sigB)
 struct Emission { int e, sig; uint64_t startSeq; uint64_t cursorSeq; bool emitterDied; };
 struct Ctx {
-  const RunSpec* spec; MyEmitter* em[NE]; MyListener* li[NL];
+  const RunSpec* spec; MyEmitterMI* em[NE]; MyListenerMI* li[NL];
   std::vector<Conn> conns; std::vector<Emission> stack; uint64_t seq; int invocations; int finalPhase;
 };
 static Ctx C;
@@ -101,7 +107,7 @@ static void doDisconnect(int e, int sig, int l, int slot) {
 static void doEmit(int e, int sig, int arg) {
   if (!C.em[e] || C.stack.size() >= 4 || C.invocations > 150) return;
   { Host h; if (outermostStart(e, sig) != ~0ULL) probe("nested_same_signal"); C.stack.push_back(Emission{e, sig, ++C.seq, 0, false}); }
-  MyEmitter* em = C.em[e];
+  MyEmitterMI* em = C.em[e];
   if (sig == 0) em->emitA(arg); else if (sig == 2) em->emitC(arg); else if (sig == 1) em->emitB(); else em->emitN(sig - 1, arg);
   Host h;
   Emission m = C.stack.back();
@@ -114,15 +120,15 @@ static void doEmit(int e, int sig, int arg) {
 static void doDestroyListener(int l) {
   if (!C.li[l]) return;
   { Host h; for (auto& c : C.conns) if (c.live && c.l == l) { for (auto& m : C.stack) if (m.e == c.e && m.sig == c.sig && c.seq > m.cursorSeq) probe("destroy_listener_pending"); c.live = false; } ++C.seq; }
-  MyListener* p = C.li[l]; C.li[l] = 0; delete p;
+  MyListenerMI* p = C.li[l]; C.li[l] = 0; delete p;
 }
 static void doDestroyEmitter(int e) {
   if (!C.em[e]) return;
   { Host h; for (auto& c : C.conns) if (c.live && c.e == e) c.live = false; for (auto& m : C.stack) if (m.e == e) { m.emitterDied = true; probe("destroy_emitter_during_emission"); } ++C.seq; }
-  MyEmitter* p = C.em[e]; C.em[e] = 0; delete p;
+  MyEmitterMI* p = C.em[e]; C.em[e] = 0; delete p;
 }
-static void doCreateListener(int l) { if (C.li[l]) return; C.li[l] = new MyListener; C.li[l]->id = l; }
-static void doCreateEmitter(int e) { if (C.em[e]) return; C.em[e] = new MyEmitter; C.em[e]->id = e; }
+static void doCreateListener(int l) { if (C.li[l]) return; C.li[l] = new MyListenerMI; C.li[l]->id = l; }
+static void doCreateEmitter(int e) { if (C.em[e]) return; C.em[e] = new MyEmitterMI; C.em[e]->id = e; }
 
 static void perform(int code, int a0, int a1, int a2, int a3) {
   logEvent("op", code, a0 * 1000 + a1 * 100 + a2 * 10 + a3);
@@ -138,6 +144,12 @@ static void perform(int code, int a0, int a1, int a2, int a3) {
   }
 }
 
+static void slotEntered(const MyListener* self, int slot, int arg) {
+  /* the object the slot runs on must be the Listener part of one of the live listeners (a wrong pointer adjustment in connect() shows here) */
+  int lid = -1; for (int l = 0; l < NL; ++l) if (C.li[l] && (const MyListener*)C.li[l] == self) lid = l;
+  if (lid < 0) fail("C12/slot_on_dead_or_wrong_object", "slot %d was invoked on an object that is not the Listener part of any live listener (a destroyed listener, or a wrong pointer adjustment in connect)", slot);
+  harnessSlot(lid, slot, arg);
+}
 static void harnessSlot(int lid, int slot, int arg) {
   C.invocations++;
   logEvent("slot", lid, slot, arg);
